@@ -77,6 +77,7 @@ func (s *metricSchemaStore) GetSchema(id metric.ID) (schema *metric.Schema, err 
 	if err != nil {
 		return nil, err
 	}
+	verifhook.Yield("index.schema.getSchema.beforeCacheAdd")
 	if schema != nil {
 		s.cache.Add(id, schema)
 	}
